@@ -406,6 +406,17 @@ func init() {
 					}
 					continue
 				}
+				if gm, isM := got.(map[string]interface{}); isM && cs.Typ == "Update" {
+					// a member that is still there with the value null has
+					// not been removed (nor may one appear that way)
+					wm, _ := wn.(map[string]interface{})
+					for k, v := range gm {
+						if _, wanted := wm[k]; v == nil && !wanted {
+							viol("store-delta", site, "Update: member kept with the value null", fmt.Sprintf("stored %s has %q: null\nwant %s", id, k, jstr(wn)))
+							break
+						}
+					}
+				}
 				if !looseEqual(wn, got, false) {
 					feat := cs.Typ + " value"
 					if cs.Typ == "Update" {
